@@ -658,7 +658,8 @@ impl<R: BufRead> Read for Dearmor<R> {
                     self.current_part = Part::Done(b);
                     return Ok(read);
                 }
-                Part::Temp => panic!("invalid state"),
+                // a previous read failed and left no part to continue with
+                Part::Temp => return Err(io::Error::other("invalid state: a previous read failed")),
             }
         }
     }
